@@ -550,7 +550,7 @@ CHECKS = {
     'C03': dict(modules=['FastPasta.Props.C03'], needs_harness=True, corr='scan', run=run_c03,
                 theorems=['FastPasta.C03.scan_exact', 'FastPasta.C03.scan_src_irrelevant', 'FastPasta.C03.encode_decode', 'FastPasta.C03.filterLoop_spec',
                           'FastPasta.C03.loadRdh_spec', 'FastPasta.C03.loadCdp_spec', 'FastPasta.C03.scanLoop_spec', 'FastPasta.C03.expected_unfold',
-                          'FastPasta.C03.scan_complete_prefix']),
+                          'FastPasta.C03.scan_complete_prefix', 'FastPasta.C03.filter_src', 'FastPasta.C03.tracker_src']),
     'C08': dict(modules=['FastPasta.Props.C08'], needs_harness=False, corr='writer_model', run=run_c08,
                 theorems=['FastPasta.C08.writer_exact', 'FastPasta.C08.writer_src_irrelevant', 'FastPasta.C08.output_well_framed', 'FastPasta.C08.idempotent',
                           'FastPasta.C08.partition_membership', 'FastPasta.C08.partition_count', 'FastPasta.C03.encode_decode', 'FastPasta.C03.scan_exact']),
